@@ -633,8 +633,101 @@ def run(ctx):
     ctx.rule('C04.STATEREC', lambda: rule_staterec(ctx), 6)
     ctx.rule('C04.WHO', lambda: rule_who(ctx)[0], 9)
     ctx.rule('C04.STATEALIAS', lambda: rule_statealias(ctx), 2)
+    ctx.rule('C04.LOGICALFILE', lambda: rule_logical_file(ctx), 2)
+    ctx.rule('C04.STORAGE', lambda: rule_storage_batch(ctx), 2)
+    from . import c06 as _c06
+    from ..chain import ChainModel as _CM
+    ctx.rule('C04.OKFLAG', lambda: _c06.rule_okflag(ctx, _CM(ctx)), 20)
     # files are written ahead of the commit: readers must clip to the committed height or they serve the residue
     from . import c10
     ctx.rule('C04.BYHEIGHT', lambda: c10.rule_byheight(ctx, 'C04.BYHEIGHT'), 2)
     ctx.rule('C04.WHO-control', lambda: positive_control_who(ctx))
     ctx.note(f'inlined effect graph of DB.flush_dbs: {ig.stats()}')
+
+
+def rule_storage_batch(ctx, prop='C04'):
+    '''The ATOMIC / REVOCABLE arguments rest on the storage contract "a write batch left by an exception writes nothing".
+    LevelDB: every way write_batch is provided passes transaction=True to plyvel (without it plyvel commits what was queued
+    when the `with` body raises).  RocksDB: __exit__ writes the batch only when no exception is being propagated.'''
+    rule = f'{prop}.STORAGE'
+    rel = ctx.repo.path('storage')
+    n = 0
+    for f in ctx.repo.funcs.values():
+        if f.unit.relpath != rel or f.cls != 'LevelDB':
+            continue
+        for x in f.own_nodes():
+            # self.write_batch = partial(self.db.write_batch, ...)  /  return self.db.write_batch(...)
+            if isinstance(x, ast.Call) and any(norm(a).endswith('db.write_batch') for a in [x.func] + list(x.args)):
+                n += 1
+                kw = {k.arg: k.value for k in x.keywords}
+                ok = 'transaction' in kw and isinstance(kw['transaction'], ast.Constant) and kw['transaction'].value is True
+                ctx.check(ok, rule, ctx.key(f, q.stmt(x), 'LevelDB batches are transactions'),
+                          'LevelDB write batches are created with transaction=True: a batch whose body raises is discarded',
+                          f'`{norm(x)[:80]}` creates LevelDB write batches without transaction=True: when the `with` body raises (MemoryError, '
+                          'a failed assertion) the operations queued so far are still written - rows without their state record',
+                          loc=ctx.loc(f, x))
+    ex = [f for f in ctx.repo.funcs.values() if f.unit.relpath == rel and f.cls == 'RocksDBWriteBatch' and f.name == '__exit__']
+    for f in ex:
+        ws = [c for c in q.own_calls(f) if isinstance(c.func, ast.Attribute) and c.func.attr == 'write']
+        for c in ws:
+            n += 1
+            conds = pr.control_conditions(q.stmt(c), f.node)
+            okc = False
+            for t, b, _p in conds:
+                txt = norm(t)
+                if b and txt in (f'not {f.params[2]}', f'{f.params[1]} is None', f'{f.params[2]} is None'):
+                    okc = True
+                if (not b) and txt in (f.params[2], f.params[1], f'{f.params[1]} is not None', f'{f.params[2]} is not None'):
+                    okc = True
+            ctx.check(okc, rule, ctx.key(f, q.stmt(c), 'RocksDB batch written only on a clean exit'),
+                      'the RocksDB batch is written only when the `with` body completed without an exception',
+                      'the RocksDB batch is written even when the `with` body raised', loc=ctx.loc(f, c))
+    return n
+
+
+def rule_logical_file(ctx, prop='C04'):
+    '''LogicalFile.write splits the data at physical-file boundaries: the room left in the current file depends on the
+    running offset, so it is computed inside the loop; each piece is written at the running offset; the offset and the
+    remaining data advance by the size of the piece written.'''
+    rule = f'{prop}.LOGICALFILE'
+    f = ctx.func('util', 'LogicalFile.write')
+    cfg = ctx.cfg(f)
+    sv, bv = f.params[1], f.params[2]
+    loops = [s for s in f.node.body if isinstance(s, ast.While)]
+    if len(loops) != 1:
+        raise AnalysisError('LogicalFile.write: expected one loop over the remaining data')
+    lp = loops[0]
+    varying = set()
+    for x in walk_own(lp):
+        if isinstance(x, (ast.Assign, ast.AugAssign)):
+            for t in (x.targets if isinstance(x, ast.Assign) else [x.target]):
+                varying |= {n_.id for n_ in ast.walk(t) if isinstance(n_, ast.Name)}
+    from .. import dataflow as df
+    d = df.defs(f)
+    stale = []
+    for x in walk_own(lp):
+        if isinstance(x, ast.Name) and isinstance(x.ctx, ast.Load) and x.id not in varying and x.id not in f.params:
+            for st, rhs in d.get(x.id, []):
+                if rhs is not None and not q.in_body(st, lp.body) and (df.names_loaded(rhs) & varying):
+                    stale.append(f'{x.id} = {norm(rhs)[:50]} (line {st.lineno})')
+    stale = sorted(set(stale))
+    ctx.check(not stale and {sv, bv} <= varying, rule, ctx.key(f, lp, 'piece size from the running offset'),
+              'the size of each piece is computed from the running offset inside the loop; offset and data both advance',
+              ('computed once before the loop although it depends on the running offset: ' + '; '.join(stale) +
+               ' - the second and later pieces are cut with the first file\'s room, so data past a file boundary lands at the wrong '
+               'place or is dropped') if stale else 'the loop does not advance both the offset and the remaining data', loc=ctx.loc(f, lp))
+    # the open is at the running offset and the advance equals the piece length
+    opens = [c for c in walk_own(lp) if isinstance(c, ast.Call) and q.callee_name(ctx, f, c) == 'self.open_file']
+    adv = [s for s in walk_own(lp) if isinstance(s, ast.AugAssign) and isinstance(s.op, ast.Add) and norm(s.target) == sv]
+    cut = [s for s in walk_own(lp) if isinstance(s, ast.Assign) and norm(s.targets[0]) == bv and isinstance(s.value, ast.Subscript)
+           and isinstance(s.value.slice, ast.Slice) and s.value.slice.upper is None and s.value.slice.lower is not None]
+    ok = len(opens) == 1 and norm(opens[0].args[0]) == sv and len(adv) == 1 and len(cut) == 1 and norm(adv[0].value) == norm(cut[0].value.slice.lower)
+    if ok:
+        o1, _ = pr.once_per_iteration(cfg, lp, [cfg.node(adv[0])])
+        o2, _ = pr.once_per_iteration(cfg, lp, [cfg.node(cut[0])])
+        ok = o1 and o2 and opens[0].lineno < adv[0].lineno
+    ctx.check(ok, rule, ctx.key(f, lp, 'offset and data advance together'),
+              'each piece is written at the running offset, then offset and data advance by the same piece size, once per iteration',
+              'the offset and the remaining data do not advance by the same piece size once per iteration (or the file is opened at '
+              'another offset)', loc=ctx.loc(f, lp))
+    return 2
